@@ -278,7 +278,10 @@ def _only_constant_fields_read(repo, fi, parent, node) -> bool:
     return bool(uses) and all(isinstance(par.get(id(x)), ast.Attribute) and par[id(x)].attr in CONSTANT_FIELDS for x in uses)
 
 
-def derived_atom_lists(fn: ast.AST) -> dict:
+ORDER_KEEPING_FUNCS: set = set()  # names of repository functions that return the atoms of a residue in file order (filled per run)
+
+
+def derived_atom_lists(fn: ast.AST, direct: list = None) -> dict:
     """Locals that hold the atoms of one residue in file order: bound to `<x>.atoms`, or to a comprehension / filter / list /
     tuple / slice / reversed of such a sequence whose members are still the atoms (sorting by a key makes a position canonical
     and ends the derivation)."""
@@ -306,6 +309,10 @@ def derived_atom_lists(fn: ast.AST) -> dict:
             return is_src(e.generators[0].iter)
         if isinstance(e, ast.Call) and isinstance(e.func, ast.Name) and e.func.id in ("list", "tuple", "filter", "reversed") and e.args and not e.keywords:
             return is_src(e.args[-1])
+        if isinstance(e, ast.Call) and astq.callee_name(e) in ORDER_KEEPING_FUNCS:
+            return True  # a function of the package that hands back atoms in the order they are listed
+        if isinstance(e, ast.IfExp):
+            return is_src(e.body) or is_src(e.orelse)
         if isinstance(e, ast.Subscript) and isinstance(e.slice, ast.Slice):
             return is_src(e.value)
         return False
@@ -321,9 +328,14 @@ def derived_atom_lists(fn: ast.AST) -> dict:
             break
     # a name that is also bound to something else is not reliably such a list
     for name in list(derived):
-        others = [v for s, v in astq.assignments(fn, name) if v is not derived[name]]
+        others = [v for s, v in astq.assignments(fn, name) if v is not derived[name] and not (v is not None and is_src(v))]
         if others:
             del derived[name]
+    if direct is not None:
+        # `a, b, c = <such a sequence>` without a name in between
+        for n in ast.walk(fn):
+            if isinstance(n, ast.Assign) and len(n.targets) == 1 and isinstance(n.targets[0], (ast.Tuple, ast.List)) and not isinstance(n.value, ast.Name) and not any(isinstance(t, ast.Starred) for t in n.targets[0].elts) and is_src(n.value):
+                direct.append(n)
     return derived
 
 
@@ -404,12 +416,40 @@ def run(chk) -> None:
     # lists derived from the atoms of one residue (comprehension, filter, list/tuple, slice, reversed - anything that keeps the file order):
     # picking a member by its position in such a list is picking an atom by its position in the file
     n_der = 0
+    # functions that return such a list: their callers hold a list in file order as well
+    ORDER_KEEPING_FUNCS.clear()
+    for _ in range(2):
+        for mname in SCOPE:
+            for q, g in repo.modules[mname].funcs.items():
+                d = derived_atom_lists(g.node)
+                rets = [r.value for r in astq.walk_no_nested(g.node) if isinstance(r, ast.Return) and r.value is not None and not (isinstance(r.value, ast.Constant) and r.value.value is None)]
+                if rets and all((isinstance(r, ast.Name) and r.id in d) or (isinstance(r, ast.IfExp) and any(isinstance(x, ast.Name) and x.id in d for x in (r.body, r.orelse))) for r in rets):
+                    ORDER_KEEPING_FUNCS.add(g.node.name)
     for m, q in sorted(reach):
         fi = repo.modules[m].funcs[q]
-        derived = derived_atom_lists(fi.node)
+        direct: list = []
+        derived = derived_atom_lists(fi.node, direct)
+        for n in direct:
+            n_der += 1
+            chk.violation(
+                "positional-atom",
+                fi.site(n),
+                f"`{norm(n)[:110]}` gives each name the atom at its position in a sequence that keeps the order in which the atoms of the residue are listed: which atom a name gets depends on the order of the atoms in the file",
+                K(fi, f"positional-unpack:{norm(n.targets[0])}"),
+            )
         if not derived:
             continue
         par = astq.parents(fi.node)
+        # unpacking gives each name the member at its position
+        for n in ast.walk(fi.node):
+            if isinstance(n, ast.Assign) and len(n.targets) == 1 and isinstance(n.targets[0], (ast.Tuple, ast.List)) and isinstance(n.value, ast.Name) and n.value.id in derived and not any(isinstance(t, ast.Starred) for t in n.targets[0].elts):
+                n_der += 1
+                chk.violation(
+                    "positional-atom",
+                    fi.site(n),
+                    f"`{norm(n)[:70]}` gives each name the atom at its position in `{n.value.id}`, a sequence that keeps the order in which the atoms of the residue are listed (`{n.value.id} = {norm(derived[n.value.id])[:70]}`): which atom is which changes when the atoms are listed in another order",
+                    K(fi, f"positional-unpack:{norm(n.targets[0])}"),
+                )
         for n in ast.walk(fi.node):
             if isinstance(n, ast.Subscript) and not isinstance(n.slice, ast.Slice) and isinstance(n.value, ast.Name) and n.value.id in derived:
                 free = {x.id for x in ast.walk(n.slice) if isinstance(x, ast.Name)} - {n.value.id, "len"}
